@@ -371,7 +371,7 @@ def main(argv=None):
         mod = importlib.import_module(f"props.{pid.lower()}")
         if a.no_proof:
             ok, out = lean_build([f"driver_{pid}"])
-            ob = {"theorems": [], "broken": [] if ok else [out[-800:]], "axioms": {}, "build_ok": ok}
+            ob = {"theorems": [], "broken": [] if ok else [out[-800:]], "axioms": {}, "build_ok": ok, "dev": True}
         else:
             ob = check_obligations(pid, a.tier == "thorough")
         if not ob["build_ok"]:
@@ -479,8 +479,10 @@ def finish(ctx, ob, meta):
         "wall_s": round(time.time() - ctx.t0, 2),
         "violations": violations,
     }
-    (VERIF / "evidence").mkdir(exist_ok=True)
-    (VERIF / "evidence" / f"{pid}.json").write_text(json.dumps(jsonable(ev), indent=1))
+    # development runs (--no-proof) skip the obligations: their record is not evidence and goes to an ignored directory
+    evdir = VERIF / "evidence" / "_dev" if ob.get("dev") else VERIF / "evidence"
+    evdir.mkdir(parents=True, exist_ok=True)
+    (evdir / f"{pid}.json").write_text(json.dumps(jsonable(ev), indent=1))
     for l in lines:
         print(l)
     print(f"{pid} {ctx.tier} seed={ctx.seed}: obligations {discharged}/{n_ob}, "
